@@ -320,11 +320,140 @@ theorem ideal_when_current (s : Sw) (hI : Inv s) (now p : Nat) (x : Frame) (hp :
           have := known_dst_fresh_partial s hI now p x hfresh hp hf hm' hl (.inl hne)
           rw [this]; simp [freshPorts, hsd, hh]
 
-/-! ## several switches on one clock, joined by links: every switch keeps the invariant and every logged arrival is
-an `arrive` on a state satisfying it, so the per-arrival theorems apply to every hop of a frame through the network -/
-theorem propagate_inv (fuel : Nat) (n : Net) (x : Frame) (q : List (Nat × Nat)) (h : ∀ s ∈ n.sws, Inv s) :
-    (∀ s ∈ (propagate fuel n x q).1.sws, Inv s) ∧
-    ∀ a ∈ (propagate fuel n x q).2.1, ∃ s, Inv s ∧ a.evs = (arrive s n.now a.port x).2 ∧ a.after = (arrive s n.now a.port x).1 := by
+/-! ## the repaired component (fixes/C11_K1.diff: `relearn` and `dropInPort` both true)
+
+Every cached entry was made for the port the controller has for its source, so a frame absorbed by a cached flow never
+contradicts the controller's table: the table is current for every address, always. -/
+def Current (s : Sw) : Prop :=
+  (∀ fl ∈ s.table, ∃ q, fl.inPort = some q ∧ macGet s.mac fl.m.src = some q) ∧ ∀ d, ¬ Stale s d
+
+theorem arrive_flags (s : Sw) (hI : Inv s) (now p : Nat) (x : Frame) :
+    (arrive s now p x).1.relearn = s.relearn ∧ (arrive s now p x).1.dropInPort = s.dropInPort := by
+  by_cases hp : p ∈ s.ports
+  · cases hl : lookup s.table p x with
+    | some fl => rw [arrive_hit s hI now p x hp fl hl]; exact ⟨rfl, rfl⟩
+    | none => obtain ⟨P, _, he⟩ := arrive_miss s hI now p x hp hl; rw [he]; exact ⟨rfl, rfl⟩
+  · rw [arrive_bad_port s now p x hp]; exact ⟨rfl, rfl⟩
+
+theorem delTable_src {s : Sw} (hr : s.relearn = true) {p : Nat} {x : Frame} {fl : Flow} (h : fl ∈ delTable s p x)
+    (hs : fl.m.src = x.src) {q : Nat} (hq : macGet s.mac x.src = some q) : q = p := by
+  apply Classical.byContradiction
+  intro hne
+  have hm : moved s.mac x.src p = true := by simp [moved, hq, hne]
+  rw [delTable_def, if_pos ⟨hr, hm⟩] at h
+  have := (List.mem_filter.mp h).2
+  simp [hs] at this
+
+theorem arrive_current (s : Sw) (hI : Inv s) (hr : s.relearn = true) (hd : s.dropInPort = true) (hC : Current s)
+    (now p : Nat) (x : Frame) : Current (arrive s now p x).1 := by
+  by_cases hp : p ∈ s.ports
+  · have hstale : ∀ (s' : Sw) (d : Nat), s'.seen = (x.src, p) :: s.seen →
+        (x.src = d → macGet s'.mac d = some p) → (x.src ≠ d → macGet s'.mac d = macGet s.mac d) → ¬ Stale s' d := by
+      intro s' d hseen h1 h2
+      unfold Stale
+      have hsp : seenPorts s' d = if x.src = d then p :: seenPorts s d else seenPorts s d := by
+        simp only [seenPorts, hseen, List.filter_cons]
+        by_cases h : x.src = d <;> simp [h]
+      rw [hsp]
+      by_cases h : x.src = d
+      · rw [if_pos h, h1 h]; simp
+      · rw [if_neg h, h2 h]; exact hC.2 d
+    cases hl : lookup s.table p x with
+    | some fl =>
+      rw [arrive_hit s hI now p x hp fl hl]
+      obtain ⟨hmem, hmatch⟩ := lookup_some hl
+      obtain ⟨q, hq1, hq2⟩ := hC.1 fl hmem
+      have hqp : q = p := by
+        rcases hmatch.1 with h | h
+        · rw [hq1] at h; cases h
+        · rw [hq1] at h; cases h; rfl
+      have hsrc : fl.m.src = x.src := by rw [hmatch.2]; rfl
+      refine ⟨?_, fun d => hstale _ d rfl (fun h => by rw [← h, ← hsrc, hq2, hqp]) (fun _ => rfl)⟩
+      intro fl' hfl'
+      obtain ⟨e0, h0, h1⟩ := mem_touch hfl'
+      rcases h1 with h1 | h1 <;> (rw [h1]; exact hC.1 e0 h0)
+    | none =>
+      obtain ⟨P, _, he⟩ := arrive_miss s hI now p x hp hl
+      rw [he]
+      refine ⟨?_, fun d => hstale _ d rfl (fun h => by rw [← h]; exact macGet_learn_self _ _ _)
+        (fun h => macGet_learn_other (Ne.symm h))⟩
+      have hold : ∀ fl ∈ delTable s p x, ∃ q, fl.inPort = some q ∧ macGet (learn s.mac x.src p) fl.m.src = some q := by
+        intro fl hfl
+        obtain ⟨q, hq1, hq2⟩ := hC.1 fl (delTable_sub hfl)
+        by_cases hs : fl.m.src = x.src
+        · rw [hs] at hq2
+          have := delTable_src hr hfl hs hq2
+          subst this
+          exact ⟨q, hq1, by rw [hs]; exact macGet_learn_self _ _ _⟩
+        · exact ⟨q, hq1, by rw [macGet_learn_other hs]; exact hq2⟩
+      intro fl hfl
+      simp only at hfl
+      cases hv : verdict s.transparent (learn s.mac x.src p) p x with
+      | filtered => rw [hv] at hfl; exact hold fl hfl
+      | flood => rw [hv] at hfl; exact hold fl hfl
+      | samePort =>
+        rw [hv] at hfl
+        rcases mem_addFlow hfl with h | h
+        · subst h; exact ⟨p, by simp [dropFlow, hd], by simp [dropFlow, Frame.hdr, macGet_learn_self]⟩
+        · exact hold fl h
+      | forward q =>
+        rw [hv] at hfl
+        rcases mem_addFlow hfl with h | h
+        · subst h; exact ⟨p, by simp [fwdFlow], by simp [fwdFlow, Frame.hdr, macGet_learn_self]⟩
+        · exact hold fl h
+  · rw [arrive_bad_port s now p x hp]; exact hC
+
+theorem sweep_current (s : Sw) (hC : Current s) (now : Nat) : Current (sweep s now) :=
+  ⟨fun fl hfl => hC.1 fl (List.mem_filter.mp hfl).1, hC.2⟩
+
+theorem init_current (nports bufs : Nat) (tr : Bool) : Current (init nports bufs tr true true) := by
+  refine ⟨by intro fl hfl; simp [init] at hfl, fun d => ?_⟩
+  simp [Stale, init, macGet, seenPorts]
+
+/-- with the repair, in every reachable state the controller's table names the most recent port of every address -/
+theorem current_reachable (nports bufs : Nat) (tr : Bool) (t0 : Nat) (h : nports < OFPP_MAX) (ops : List Op) :
+    Current (run { sw := init nports bufs tr true true, now := t0 } ops).1.sw := by
+  suffices hgen : ∀ (st : St), Inv st.sw → st.sw.relearn = true → st.sw.dropInPort = true → Current st.sw →
+      Current (run st ops).1.sw from hgen _ (L2.init_inv nports bufs tr h true true) rfl rfl (init_current nports bufs tr)
+  induction ops with
+  | nil => intro st _ _ _ hC; exact hC
+  | cons op ops ih =>
+    intro st hI hr hd hC
+    simp only [run]
+    cases op with
+    | rx p x =>
+      have hf := arrive_flags st.sw hI st.now p x
+      exact ih _ (arrive_inv st.sw hI st.now p x) (by rw [← hr]; exact hf.1) (by rw [← hd]; exact hf.2)
+        (arrive_current st.sw hI hr hd hC st.now p x)
+    | adv ms => exact ih _ hI hr hd hC
+    | sweep => exact ih _ (sweep_inv st.sw hI st.now) hr hd (sweep_current st.sw hC st.now)
+
+/-- **known_dst_fresh** at full strength for the repaired component: no hypothesis about the controller's table -/
+theorem known_dst_fresh_repaired (s : Sw) (hI : Inv s) (hC : Current s) (now p : Nat) (x : Frame) :
+    known_dst_fresh_full s now p x :=
+  known_dst_fresh_partial s hI now p x (hC.2 x.dst)
+
+/-- … and then the loop IS the ideal bridge whenever the frame is not absorbed by a cached flow -/
+theorem ideal_repaired (s : Sw) (hI : Inv s) (hC : Current s) (now p : Nat) (x : Frame) (hp : p ∈ s.ports)
+    (hl : lookup s.table p x = none) : outPorts (arrive s now p x).2 = ideal s p x :=
+  ideal_when_current s hI now p x hp hl (hC.2 x.dst)
+
+/-! ## networks: 1..n switches, each with its own learning state, flow cache and buffer pool, one clock, links between ports -/
+
+def NetInv (n : Net) : Prop :=
+  ∀ s ∈ n.sws, Inv s ∧ Timed s ∧ (s.relearn = true → s.dropInPort = true → Current s)
+
+/-- a hop is an `arrive` of the frame on the switch's state at that moment, and that state satisfies the invariant -/
+structure HopOK (x : Frame) (a : Arrival) : Prop where
+  inv : Inv a.before
+  cur : a.before.relearn = true → a.before.dropInPort = true → Current a.before
+  evs_eq : a.evs = (arrive a.before a.now a.port x).2
+  after_eq : a.after = (arrive a.before a.now a.port x).1
+
+theorem propagate_hops (fuel : Nat) (n : Net) (x : Frame) (q : List (Nat × Nat)) (h : NetInv n) :
+    NetInv (propagate fuel n x q).1 ∧ (propagate fuel n x q).1.now = n.now ∧ (propagate fuel n x q).1.links = n.links ∧
+    ∀ a ∈ (propagate fuel n x q).2.1, HopOK x a ∧
+      ((a.sw, a.port) ∈ q ∨ ∃ a' ∈ (propagate fuel n x q).2.1, ∃ o ∈ outPorts a'.evs, peer n.links (a'.sw, o) = some (a.sw, a.port)) := by
   induction fuel generalizing n q with
   | zero => simp [propagate]; exact h
   | succ fuel ih =>
@@ -334,22 +463,164 @@ theorem propagate_inv (fuel : Nat) (n : Net) (x : Frame) (q : List (Nat × Nat))
       obtain ⟨i, p⟩ := e
       simp only [propagate]
       cases hs : n.sws[i]? with
-      | none => exact ih n q h
+      | none =>
+        obtain ⟨g1, g2, g3, g4⟩ := ih n q h
+        refine ⟨g1, g2, g3, ?_⟩
+        intro a ha
+        obtain ⟨k1, k2⟩ := g4 a ha
+        refine ⟨k1, ?_⟩
+        rcases k2 with k2 | k2
+        · exact .inl (List.mem_cons_of_mem _ k2)
+        · exact .inr k2
       | some s =>
         simp only
-        have hsI : Inv s := h s (List.mem_of_getElem? hs)
-        have h' : ∀ s' ∈ ({ n with sws := n.sws.set i (arrive s n.now p x).1 } : Net).sws, Inv s' := by
+        have hsI := h s (List.mem_of_getElem? hs)
+        have h' : NetInv { n with sws := n.sws.set i (arrive s n.now p x).1 } := by
           intro s' hs'
           rcases List.mem_or_eq_of_mem_set hs' with h1 | h1
           · exact h s' h1
-          · rw [h1]; exact arrive_inv s hsI n.now p x
-        obtain ⟨g1, g2⟩ := ih { n with sws := n.sws.set i (arrive s n.now p x).1 }
+          · rw [h1]
+            have hf := arrive_flags s hsI.1 n.now p x
+            exact ⟨arrive_inv s hsI.1 n.now p x, arrive_timed s hsI.1 hsI.2.1 n.now p x, fun hr hd =>
+              arrive_current s hsI.1 (hf.1 ▸ hr) (hf.2 ▸ hd) (hsI.2.2 (hf.1 ▸ hr) (hf.2 ▸ hd)) n.now p x⟩
+        obtain ⟨g1, g2, g3, g4⟩ := ih { n with sws := n.sws.set i (arrive s n.now p x).1 }
           (q ++ (outPorts (arrive s n.now p x).2).filterMap fun o => peer n.links (i, o)) h'
-        refine ⟨g1, ?_⟩
+        refine ⟨g1, g2, g3, ?_⟩
         intro a ha
         rcases List.mem_cons.mp ha with h1 | h1
-        · subst h1; exact ⟨s, hsI, rfl, rfl⟩
-        · exact g2 a h1
+        · subst h1
+          exact ⟨⟨hsI.1, hsI.2.2, rfl, rfl⟩, .inl List.mem_cons_self⟩
+        · obtain ⟨k1, k2⟩ := g4 a h1
+          refine ⟨k1, ?_⟩
+          rcases k2 with k2 | ⟨a', ha', o, ho, hpeer⟩
+          · rcases List.mem_append.mp k2 with k3 | k3
+            · exact .inl (List.mem_cons_of_mem _ k3)
+            · obtain ⟨o, ho, hpeer⟩ := List.mem_filterMap.mp k3
+              exact .inr ⟨_, List.mem_cons_self, o, ho, hpeer⟩
+          · exact .inr ⟨a', List.mem_cons_of_mem _ ha', o, ho, hpeer⟩
+
+theorem netStep_inv (fuel : Nat) (n : Net) (op : NetOp) (h : NetInv n) : NetInv (netStep fuel n op).1 := by
+  cases op with
+  | rx i p x => exact (propagate_hops fuel n x [(i, p)] h).1
+  | adv ms => exact h
+  | sweep i =>
+    simp only [netStep]
+    cases hs : n.sws[i]? with
+    | none => exact h
+    | some s =>
+      intro s' hs'
+      rcases List.mem_or_eq_of_mem_set hs' with h1 | h1
+      · exact h s' h1
+      · have := h s (List.mem_of_getElem? hs)
+        rw [h1]; exact ⟨sweep_inv s this.1 n.now, sweep_timed s this.2.1 n.now, fun hr hd => sweep_current s (this.2.2 hr hd) n.now⟩
+
+/-- every state of every network history keeps every switch's invariant -/
+theorem net_reachable_inv (fuel : Nat) (n : Net) (ops : List NetOp) (h : NetInv n) : NetInv (netRun fuel n ops).1 := by
+  induction ops generalizing n with
+  | nil => exact h
+  | cons op ops ih => simp only [netRun]; exact ih _ (netStep_inv fuel n op h)
+
+/-- `P` holds of every hop of every frame of the history -/
+def EveryHop (fuel : Nat) (n : Net) (ops : List NetOp) (P : Frame → Arrival → Prop) : Prop :=
+  ∀ e ∈ (netRun fuel n ops).2, ∀ x, e.1 = some x → ∀ a ∈ e.2, P x a
+
+/-- **every_hop**: in every network (any number of switches, any links), for every history of host frames, clock advances
+and per-switch sweeps, every hop of every frame is an `arrive` on a switch state satisfying the invariant -/
+theorem every_hop (fuel : Nat) (n : Net) (ops : List NetOp) (h : NetInv n) : EveryHop fuel n ops HopOK := by
+  induction ops generalizing n with
+  | nil => intro e he; simp [netRun] at he
+  | cons op ops ih =>
+    intro e he
+    simp only [netRun, List.mem_cons] at he
+    rcases he with he | he
+    · subst he
+      intro x hx a ha
+      cases op with
+      | rx i p y =>
+        simp only [Option.some.injEq] at hx; subst hx
+        exact ((propagate_hops fuel n y [(i, p)] h).2.2.2 a ha).1
+      | adv ms => cases hx
+      | sweep i => cases hx
+    · exact ih _ (netStep_inv fuel n op h) e he
+
+theorem EveryHop.mono {fuel : Nat} {n : Net} {ops : List NetOp} {P Q : Frame → Arrival → Prop}
+    (h : EveryHop fuel n ops P) (hpq : ∀ x a, P x a → Q x a) : EveryHop fuel n ops Q :=
+  fun e he x hx a ha => hpq x a (h e he x hx a ha)
+
+/-- frames only travel along links: every hop is the injection point or the far end of a link on which an earlier hop delivered -/
+theorem hop_provenance (fuel : Nat) (n : Net) (h : NetInv n) (i p : Nat) (x : Frame) :
+    ∀ a ∈ (netStep fuel n (.rx i p x)).2.1, (a.sw, a.port) = (i, p) ∨
+      ∃ a' ∈ (netStep fuel n (.rx i p x)).2.1, ∃ o ∈ outPorts a'.evs, peer n.links (a'.sw, o) = some (a.sw, a.port) := by
+  intro a ha
+  rcases ((propagate_hops fuel n x [(i, p)] h).2.2.2 a ha).2 with h1 | h1
+  · exact .inl (List.mem_singleton.mp h1)
+  · exact .inr h1
+
+/-! network-level forms of the property: for every hop of every frame, relative to the history `a.before.seen` of THAT switch -/
+
+theorem net_no_echo_no_dup (fuel : Nat) (n : Net) (ops : List NetOp) (h : NetInv n) :
+    EveryHop fuel n ops fun x a => (outPorts a.evs).Nodup ∧ a.port ∉ outPorts a.evs ∧
+      ∀ d ∈ deliveries a.evs, d.2 = x ∧ d.1 ∈ a.before.ports :=
+  (every_hop fuel n ops h).mono fun x a k => by rw [k.evs_eq]; exact no_echo_no_dup a.before k.inv a.now a.port x
+
+theorem net_unknown_floods (fuel : Nat) (n : Net) (ops : List NetOp) (h : NetInv n) :
+    EveryHop fuel n ops fun x a => a.port ∈ a.before.ports → ¬ Filtered a.before.transparent x →
+      (isMulticast x.dst = true ∨ (seenPorts a.before x.dst = [] ∧ x.src ≠ x.dst)) →
+      deliveries a.evs = (a.before.ports.filter (· ≠ a.port)).map fun q => (q, x) :=
+  (every_hop fuel n ops h).mono fun x a k => by rw [k.evs_eq]; exact unknown_floods a.before k.inv a.now a.port x
+
+theorem net_known_dst (fuel : Nat) (n : Net) (ops : List NetOp) (h : NetInv n) :
+    EveryHop fuel n ops fun x a => a.port ∈ a.before.ports → isMulticast x.dst = false →
+      (seenPorts a.before x.dst ≠ [] ∨ x.src = x.dst) → ∀ q ∈ outPorts a.evs, q ∈ seenPorts a.before x.dst :=
+  (every_hop fuel n ops h).mono fun x a k => by rw [k.evs_eq]; exact known_dst a.before k.inv a.now a.port x
+
+theorem net_known_dst_fresh_partial (fuel : Nat) (n : Net) (ops : List NetOp) (h : NetInv n) :
+    EveryHop fuel n ops fun x a => ¬ Stale a.before x.dst → a.port ∈ a.before.ports → ¬ Filtered a.before.transparent x →
+      isMulticast x.dst = false → lookup a.before.table a.port x = none → (seenPorts a.before x.dst ≠ [] ∨ x.src = x.dst) →
+      outPorts a.evs = freshPorts a.before a.port x :=
+  (every_hop fuel n ops h).mono fun x a k => by
+    rw [k.evs_eq]; exact fun hs => known_dst_fresh_partial a.before k.inv a.now a.port x hs
+
+/-- repaired component: no hypothesis about the controller's table is needed, anywhere in the network -/
+theorem net_known_dst_fresh_repaired (fuel : Nat) (n : Net) (ops : List NetOp) (h : NetInv n) :
+    EveryHop fuel n ops fun x a => a.before.relearn = true → a.before.dropInPort = true → a.port ∈ a.before.ports →
+      ¬ Filtered a.before.transparent x → isMulticast x.dst = false → lookup a.before.table a.port x = none →
+      (seenPorts a.before x.dst ≠ [] ∨ x.src = x.dst) → outPorts a.evs = freshPorts a.before a.port x :=
+  (every_hop fuel n ops h).mono fun x a k => by
+    rw [k.evs_eq]; exact fun hr hd => known_dst_fresh_repaired a.before k.inv (k.cur hr hd) a.now a.port x
+
+theorem net_filtered (fuel : Nat) (n : Net) (ops : List NetOp) (h : NetInv n) :
+    EveryHop fuel n ops fun x a => Filtered a.before.transparent x → deliveries a.evs = [] :=
+  (every_hop fuel n ops h).mono fun x a k => by rw [k.evs_eq]; exact filtered a.before k.inv a.now a.port x
+
+/-- after every hop the switch that handled it has no occupied buffer, and at the end of any history no switch has -/
+theorem net_buffers_drain (fuel : Nat) (n : Net) (ops : List NetOp) (h : NetInv n) :
+    (EveryHop fuel n ops fun _ a => stored a.after.pool = 0) ∧ ∀ s ∈ (netRun fuel n ops).1.sws, stored s.pool = 0 :=
+  ⟨(every_hop fuel n ops h).mono fun x a k => by rw [k.after_eq]; exact (buffers_drain a.before k.inv a.now a.port x).1,
+   fun s hs => stored_zero_of_allFree _ (net_reachable_inv fuel n ops h s hs).1.free⟩
+
+/-- the flow cache in virtual time: right after a switch sweeps, none of its entries was created more than 30 s or last used
+more than 10 s ago — whatever the history of the network before -/
+theorem net_cache_bounded (fuel : Nat) (n : Net) (ops : List NetOp) (h : NetInv n) (i : Nat) (s : Sw)
+    (hs : (netRun fuel n ops).1.sws[i]? = some s) :
+    ∀ fl ∈ (sweep s (netRun fuel n ops).1.now).table,
+      (netRun fuel n ops).1.now - fl.touched ≤ 10000 ∧ (netRun fuel n ops).1.now - fl.created ≤ 30000 :=
+  sweep_bounds s (net_reachable_inv fuel n ops h s (List.mem_of_getElem? hs)).2.1 _
+
+/-- a fresh network -/
+def netInit (specs : List (Nat × Nat)) (tr : Bool) (links : List ((Nat × Nat) × (Nat × Nat))) (t0 : Nat)
+    (rl : Bool := false) (dip : Bool := false) : Net :=
+  { sws := specs.map fun sp => init sp.1 sp.2 tr rl dip, links := links, now := t0 }
+
+theorem netInit_inv (specs : List (Nat × Nat)) (tr : Bool) (links : List ((Nat × Nat) × (Nat × Nat))) (t0 : Nat)
+    (h : ∀ sp ∈ specs, sp.1 < OFPP_MAX) (rl : Bool := false) (dip : Bool := false) : NetInv (netInit specs tr links t0 rl dip) := by
+  intro s hs
+  obtain ⟨sp, hsp, rfl⟩ := List.mem_map.mp hs
+  refine ⟨L2.init_inv sp.1 sp.2 tr (h sp hsp) rl dip, by intro fl hfl; simp [init] at hfl, ?_⟩
+  intro hr hd
+  simp only [init] at hr hd
+  subst hr hd
+  exact init_current sp.1 sp.2 tr
 
 /-! ## the defect: a host that returns to an earlier port while its old flow is still cached
 
@@ -369,6 +640,11 @@ theorem defectState_inv : Inv defectState := init_inv 3 1 false 1000000 (by deci
 
 /-- the frame B→A (a new conversation: key 2) arriving on port 3 goes out port 2; A was last seen on port 1 -/
 theorem known_dst_fresh_defect : ¬ known_dst_fresh_full defectState 1000000 3 (udp fB fA 2) := by decide
+
+/-- the same history with the repair (fixes/C11_K1.diff): A's return to port 1 is a packet-in (its old entry was deleted when it
+    showed up on port 2), the controller's table is current, and B→A goes to port 1 -/
+example : outPorts (arrive (run { sw := init 3 1 false true true, now := 1000000 } defectOps).1.sw 1000000 3 (udp fB fA 2)).2 = [1] := by
+  decide
 
 /-- what exactly happens on the witness, and that it is the `Stale` situation -/
 example : outPorts (arrive defectState 1000000 3 (udp fB fA 2)).2 = [2] ∧ seenPorts defectState fA = [1, 2, 1] ∧
@@ -403,5 +679,17 @@ example : Filtered demo.transparent stp ∧ deliveries (arrive demo 1016000 1 st
 -- buffers: with a pool of 0, 1 or 2 every path (flood, install, drop, filtered) leaves the pool empty
 example : ∀ bufs ∈ [0, 1, 2], ((run { sw := init 4 bufs false, now := 0 }
     [.rx 1 (udp fA fB 1), .rx 2 (udp fB fA 1), .rx 2 (udp fA fB 1), .rx 1 stp]).1.sw.pool.slots.all Option.isNone) = true := by decide
+
+/-! non-vacuity (network): three switches in a line, sw0 port 3 — sw1 port 1, sw1 port 2 — sw2 port 1; A on sw0 port 1, B on sw2 port 2.
+A→B floods through all three switches, B→A and the next A→B are forwarded hop by hop along the line (three hops each), and after
+11 s + a sweep on sw1 the frame is a packet-in there again. -/
+def lineNet : Net := netInit [(3, 1), (2, 0), (3, 2)] false [((0, 3), (1, 1)), ((1, 2), (2, 1))] 1000000
+theorem lineNet_inv : NetInv lineNet := netInit_inv _ _ _ _ (by decide)
+def lineOps : List NetOp := [.rx 0 1 (udp fA fB 1), .rx 2 2 (udp fB fA 1), .rx 0 1 (udp fA fB 1), .adv 11000, .sweep 1, .rx 0 1 (udp fA fB 1)]
+example : (netRun 66 lineNet lineOps).2.map (fun e => e.2.map fun a => (a.sw, a.port, outPorts a.evs)) =
+    [[(0, 1, [2, 3]), (1, 1, [2]), (2, 1, [2, 3])], [(2, 2, [1]), (1, 2, [1]), (0, 3, [1])], [(0, 1, [3]), (1, 1, [2]), (2, 1, [2])],
+     [], [], [(0, 1, [3]), (1, 1, [2]), (2, 1, [2])]] := by decide
+example : (netRun 66 lineNet lineOps).2.map (fun e => e.2.map fun a => (a.evs.filter (· = Ev.packetIn)).length) =
+    [[1, 1, 1], [1, 1, 1], [1, 1, 1], [], [], [0, 1, 0]] := by decide
 
 end Pox.C11
